@@ -222,6 +222,10 @@ struct entry
     std::function<void(span, std::vector<std::string>&)> dec_cur;
     std::function<std::size_t(span, tokens&)> enc_ra;
     std::function<std::size_t(span, tokens&)> enc_cur;
+    // visit with a recording visitor that stops at the k-th callback (0: never)
+    std::function<void(span, long, std::vector<std::string>&, bool&, long&)> visit;
+    // encode through set_by_tag / get_by_tag
+    std::function<std::size_t(span, tokens&)> enc_tag;
 };
 
 inline std::string join(const std::vector<std::string>& v)
@@ -273,6 +277,26 @@ inline int main_loop(const std::map<std::string, entry>& table)
             std::cout << "ra=" << join(ra) << " rast=" << (s1.empty() ? "ok" : s1) << " cur=" << join(cur)
                       << " curst=" << (s2.empty() ? "ok" : s2) << " unchanged=" << (same ? 1 : 0) << "\n";
         }
+        else if(cmd == "visit")
+        {
+            std::string hex;
+            long stop_at = 0;
+            is >> hex >> stop_at;
+            const auto img = proto::unhex(hex);
+            guard_buf gb{img.size()};
+            std::memcpy(gb.p, img.data(), img.size());
+            std::vector<std::string> recs;
+            bool stopped = false;
+            long cursor = -1;
+            std::string st = "no-visit-entry";
+            if(it->second.visit)
+            {
+                st = proto::guarded([&] { it->second.visit(span{gb.p, gb.n}, stop_at, recs, stopped, cursor); });
+            }
+            const bool same = std::memcmp(gb.p, img.data(), img.size()) == 0;
+            std::cout << "recs=" << join(recs) << " stopped=" << (stopped ? 1 : 0) << " cursor=" << cursor
+                      << " st=" << (st.empty() ? "ok" : st) << " unchanged=" << (same ? 1 : 0) << "\n";
+        }
         else if(cmd == "encode")
         {
             std::string mode, hex;
@@ -291,8 +315,9 @@ inline int main_loop(const std::map<std::string, entry>& table)
             const auto st = proto::guarded(
                 [&]
                 {
-                    ret = (mode == "cur") ? it->second.enc_cur(span{gb.p, gb.n}, tq)
-                                          : it->second.enc_ra(span{gb.p, gb.n}, tq);
+                    ret = (mode == "cur")   ? it->second.enc_cur(span{gb.p, gb.n}, tq)
+                          : (mode == "tag") ? it->second.enc_tag(span{gb.p, gb.n}, tq)
+                                            : it->second.enc_ra(span{gb.p, gb.n}, tq);
                 });
             std::cout << "buf=" << proto::hex(reinterpret_cast<unsigned char*>(gb.p), gb.n) << " ret=" << ret
                       << " st=" << (st.empty() ? (bad_header_view ? "BADHDRVIEW" : "ok") : st) << "\n";
